@@ -74,7 +74,8 @@ class World:
         self.idx = {}             # id(node object) -> abstract id
         self.atoms = atoms or Atoms()
         # MC text atoms are small ints; map them to real strings deterministically
-        self.text_of = text_of or (lambda a: None if a == 0 else f"text-{a}")
+        # atom 2 is the EMPTY STRING: "" and None must be told apart by everything that compares or copies text
+        self.text_of = text_of or (lambda a: None if a == 0 else ("" if a == 2 else f"text-{a}"))
 
     # ---------------------------------------------------------------- bookkeeping
     def track(self, node):
